@@ -70,7 +70,7 @@ def gen_ops(rng, timed, tier):
               'by': rng.choice([['col', 'g'], ['col', 'h'], ['col', ['g', 'h']], ['ser', 'g'], ['ser', 'y%2']])}
         ops.append(op)
     for _ in range(4):
-        op = {'fam': 'roll', 'agg': rng.choice(['sum', 'mean', 'min', 'max', 'median', 'std', 'var', 'count', 'quantile']), 'win': _win(rng, timed)}
+        op = {'fam': 'roll', 'agg': rng.choice(['sum', 'mean', 'min', 'max', 'median', 'std', 'var', 'count', 'quantile']), 'win': _win(rng, timed), 'minp': rng.choice([None, None, 1, 2, 3])}
         op.update(_tgt(rng))
         if op['agg'] == 'quantile':
             op['args'] = [rng.choice([0.25, 0.5])]
